@@ -106,7 +106,7 @@ func runC19(e *Env) {
 				results[t] = recs
 				mu.Unlock()
 			}()
-			p, err := load.Load(r.RepoDir, parts[0], parts[1], false, ".", "./internal/unix", "./arch")
+			p, err := load.Load(e.Repo, parts[0], parts[1], false, ".", "./internal/unix", "./arch")
 			if err != nil {
 				recs = append(recs, rec{"E4.api", t + "/typecheck", "", fmt.Sprintf("the library does not type-check for %s: %v", t, err), false, false})
 				return
